@@ -1,21 +1,29 @@
 #!/usr/bin/env python3
-"""Rust-subset -> Lean 4 translator for the state machines of helgoboss-midi (the three scanner files).
+"""Rust-subset -> Lean 4 translator for the code of helgoboss-midi (thirteen source files, see FILES and MacroGen).
 
-Reads /repo/src/<file>.rs by syntax (tokenizer + recursive-descent parser for the subset of Rust the scanners are
-written in: structs, enums, inherent impls, `impl Default`, let / assignment / `for .. in x.iter_mut()`,
-if / if let / match with literal, range, tuple-variant, struct and or-patterns, struct literals with `..base`,
-`?` on Option, early `return`, method and path calls) and writes one Lean module per file under lean/Midi/Gen/.
+Reads /repo/src/<file>.rs by syntax (tokenizer + recursive-descent parser for the subset of Rust the crate is written
+in: structs, enums, traits with default methods, inherent impls, listed `impl Trait for Type` blocks, `impl Default`,
+let / let mut / assignment to self.f, a local or local[i] / `+=` on an index local / `for .. in self.f.iter_mut()`,
+if / if let / match with literal, range, tuple-variant, struct and or-patterns, struct and variant literals with
+`..base`, `?` on Option / Result, early `return`, method and path calls, casts, bit operations, `assert!`,
+`assert_eq!`, `debug_assert!`, `matches!`, `unreachable!`, `unsafe { }`, `.expect("..")`, `.into()` / `.try_into()`
+with known source and target type) and writes one Lean module per file under lean/Midi/Gen/.  The bodies of the
+conversion macros of newtype_macros.rs are translated once with the macro metavariables as parameters (MacroGen).
 
-Translation scheme (continuation-passing at translation time, so early `return` and `?` need no runtime support):
+Translation scheme (continuation-passing at translation time, so early `return`, `?` and mutation need no runtime
+support and the output is plain functional Lean):
   * every function becomes a total Lean function into `Res` (= Except Panic);  a `&mut self` method returns
-    `(result, self')`, a `&self` / static function returns `result`;
+    `(result, self')`, a `&self` / static function returns `result`;  `Result<T, E>` is `Option T`;
   * `self.f = e` becomes `let self := { self with f := e }`; a `&mut` call on `self.f[i]` reads the element
     (index out of bounds = panic `indexOutOfBounds`), calls, and writes the element back;
   * `Instant::now()` is the explicit parameter `now`, `t.elapsed()` is `now - t` (truncated, like the saturating std one);
-  * `&impl ShortMessage` parameters become `{α} (I : Impl α) (x : α)`;  calls into the rest of the crate
-    (`to_structured`, `channel`, message constructors, `build_14_bit_value_from_two_7_bit_values`, ...) go to the
-    hand-written model functions listed in EXTERN_FNS / EXTERN_METHODS below.
-Anything outside the subset raises TErr: the caller treats that as "translator tie unavailable", never as success.
+  * `&impl ShortMessage` parameters become `{α} (I : Impl α) (x : α)`, `T: ShortMessageFactory` becomes
+    `{β} (F : Factory β)`; restricted integers and machine integers are `Nat` (`as uN` = `% 2^N`, `<<` on uN drops the
+    bits shifted out, `+` on uN is checked addition);  calls into parts of the crate that are not translated (derives,
+    num_enum, the tables of extract.py) go to the hand-written model functions listed in the tables below.
+The output is deterministic.  Anything outside the subset raises TErr and leaves a module that does not build: the
+caller (checklib.Check.translated) treats that as "translator tie unavailable", never as success.  Lean's type
+checker is a second line of defence: a mis-resolved conversion between a Nat and an enum does not type-check.
 """
 import os, re, sys, json
 
